@@ -20,8 +20,8 @@ PROPS["C02"] = dict(
     units=[
         dict(name="inmem", run="^TestC02InmemRapid$", checks=(1500, 10000), shards=(2, 8), timeout=(300, 1500), race=(False, True)),
         dict(name="squeeze", run="^TestC02Squeeze$", shards=1, timeout=(300, 900)),
-        dict(name="hammer", run="^TestC02Hammer$", checks=(60, 400), shards=(2, 8), timeout=(300, 1500), shrinktime="15s"),
-        dict(name="private", run="^TestC02Private$", checks=(40, 200), shards=(2, 8), timeout=(300, 1500), shrinktime="15s"),
+        dict(name="hammer", run="^TestC02Hammer$", checks=(60, 150), shards=(2, 6), timeout=(300, 1500), shrinktime="15s"),
+        dict(name="private", run="^TestC02Private$", checks=(40, 60), shards=(2, 8), timeout=(300, 1500), shrinktime="15s"),
         dict(name="rediswire", run="^TestC02RedisWire$", checks=(600, 6000), shards=(2, 8), timeout=(300, 1500)),
         dict(name="redis", run="^TestC02RedisRapid$", checks=(400, 2500), shards=(6, 8), timeout=(300, 1500), race=(False, True)),
     ],
